@@ -63,7 +63,7 @@ func runC24(c *core.Ctx) {
 var csvPrims = []string{"Null", "Int", "Float", "Boolean", "Time", "String"}
 
 // csvCellLoop finds the per-cell loop of the csv datasource: the range loop whose body stores into a slice of values.
-func csvCellLoop(fn *core.FuncRef) *ast.RangeStmt {
+func csvCellLoop(p *core.Program, fn *core.FuncRef) *ast.RangeStmt {
 	var found *ast.RangeStmt
 	ast.Inspect(fn.Decl.Body, func(n ast.Node) bool {
 		rs, ok := n.(*ast.RangeStmt)
@@ -71,12 +71,15 @@ func csvCellLoop(fn *core.FuncRef) *ast.RangeStmt {
 			return true
 		}
 		has := false
-		ast.Inspect(rs.Body, func(m ast.Node) bool {
-			if call, ok := m.(*ast.CallExpr); ok && strings.HasSuffix(core.ExprStr(call.Fun), "octosql.NewString") {
-				has = true
-			}
-			return true
-		})
+		// the values may be constructed by a helper the loop hands each cell to
+		for _, body := range bodyClosure(p, fn.Pkg.PkgPath, fn.Info(), rs.Body) {
+			ast.Inspect(body, func(m ast.Node) bool {
+				if call, ok := m.(*ast.CallExpr); ok && strings.HasSuffix(core.ExprStr(call.Fun), "octosql.NewString") {
+					has = true
+				}
+				return true
+			})
+		}
 		if has {
 			found = rs // innermost wins (Inspect visits outer first)
 		}
@@ -94,7 +97,7 @@ func checkCSVCells(c *core.Ctx, rule string) {
 		return
 	}
 	c.SawFunc(key)
-	loop := csvCellLoop(fn)
+	loop := csvCellLoop(p, fn)
 	if loop == nil {
 		c.Unknown(rule, key, fn.Decl.Pos(), "no per-cell loop (range loop constructing octosql values) found")
 		return
@@ -746,7 +749,12 @@ func checkCSVParserAgreement(c *core.Ctx, rule string) {
 		c.SawFunc(spec[0] + "." + spec[1])
 		info := fn.Info()
 		set := map[string]bool{}
-		ast.Inspect(fn.Decl.Body, func(n ast.Node) bool {
+		// the function and the helpers it hands cells to
+		var bodies []ast.Node
+		for _, h := range helperClosure(p, fn) {
+			bodies = append(bodies, h.Decl.Body)
+		}
+		inspectAll(bodies, func(n ast.Node) bool {
 			call, ok := n.(*ast.CallExpr)
 			if !ok || len(call.Args) == 0 {
 				return true
